@@ -19,7 +19,7 @@ use crate::{
     props::c19,
 };
 
-pub const NAMES: [&str; 18] = ["foo", "Foo", "FOO", "fooBar", "foo_bar", "Foo_", "_foo", "type", "Type", "self", "Self", "box", "yield", "do", "abstract", "gen", "r", "_"];
+pub const NAMES: [&str; 21] = ["foo", "Foo", "FOO", "fooBar", "foo_bar", "Foo_", "_foo", "type", "Type", "self", "Self", "box", "yield", "do", "abstract", "gen", "r", "_", "Foo2Bar", "foo2bar", "Foo2"];
 pub const REDUCED: [&str; 7] = ["foo", "Foo", "fooBar", "foo_bar", "type", "self", "Self"];
 
 #[derive(Clone, Debug)]
@@ -322,7 +322,7 @@ pub fn run(ctx: &Ctx) -> ! {
     let mut c = cov();
     c.insert("evaluations".into(), json!(fam.len()));
     c.insert("distinct_nontrivial".into(), json!(compiled_ok.len() + failing.len()));
-    c.insert("rule".into(), json!("schema family: one interface + one implementing object + root with two entrypoints; every single position (both type names, two properties, edge, two entrypoints, parameter) x 18 names chosen to collide or need escaping after snake-casing / capitalising / keyword escaping; pairs of positions x pairs of names (quick: 4 position pairs x 7 names; thorough: all 28 position pairs x 18 names); every built-in scalar (incl. ID) x 8 nullability / list shapes as property type and as parameter type; schemas without edges / without properties. Each schema accepted by Schema::parse goes through generate_rust_stub; every written stub is type-checked (cargo check --tests) inside one scratch crate against /repo/trustfall. non-trivial = stubs that reached the compiler"));
+    c.insert("rule".into(), json!("schema family: one interface + one implementing object + root with two entrypoints; every single position (both type names, two properties, edge, two entrypoints, parameter) x 21 names chosen to collide or need escaping after snake-casing / capitalising / keyword escaping; pairs of positions x pairs of names (quick: 4 position pairs x 7 names; thorough: all 28 position pairs x 21 names); every built-in scalar (incl. ID) x 8 nullability / list shapes as property type and as parameter type; schemas without edges / without properties. Each schema accepted by Schema::parse goes through generate_rust_stub; every written stub is type-checked (cargo check --tests) inside one scratch crate against /repo/trustfall. non-trivial = stubs that reached the compiler"));
     c.insert("schemas_in_family".into(), json!(fam.len()));
     c.insert("schemas_rejected_by_schema_validation".into(), json!(schema_rejected));
     c.insert("stubs_written".into(), json!(written.len()));
